@@ -513,6 +513,8 @@ SPECS['C02'] = dict(
         + tiered(lambda: ch('sequential', 'harness.c02', 'h_seq', 'result == sequential map (values, order / multiset, exception type+args with remote '
                             'traceback, imap error at the failing position then the rest)', timeout=(400, 1800)), 20, 30)
         + tiered(lambda: twin('sequential', 'harness.c02', 'h_seq_twin', 'the job runs to completion'), 20, 30)
+        + tiered(lambda: ch('blocking-consumer', 'harness.c02b', 'h_blocking', 'imap / imap_unordered consumer blocked in next() (no timeout) while results arrive in any '
+                            'order: items in input order / same multiset, errors at their position, never a TimeoutError', timeout=(400, 1800), nontrivial_witness=True), 8, 12)
     ),
 )
 
@@ -533,6 +535,13 @@ SPECS['C07'] = dict(
     obligations=(
         parts(ch('close-join', 'harness.c07', 'h_close_join', 'close() then join(): drains, refuses late jobs, sentinels, no hang, workers gone, no 30 s guard', timeout=(400, 1800)), 8)
         + parts(twin('close-join', 'harness.c07', 'h_close_join_twin', 'join() returns in some run'), 8)
+        + [ch('death-after-close', 'harness.c07', 'h_death_after_close', 'a worker dies in task code after close(): exactly its job fails with WorkerLostError, the '
+              'other job keeps its result, join() returns', timeout=(300, 1500)),
+           twin('death-after-close', 'harness.c07', 'h_death_after_close_twin', 'join() returns in some such run'),
+           ch('close-during-supervision', 'harness.c07', 'h_midtick', 'close() issued from on_process_down (between reaping and replacing): no worker is started '
+              'afterwards, join() returns, the running job keeps its result', timeout=(300, 1500), env={'VERIF_PART': '0', 'VERIF_NPART': '2'}),
+           ch('close-during-supervision/twin', 'harness.c07', 'h_midtick_twin', 'the callback fires in some run', timeout=(120, 600), expect='refuted',
+              twin_of='close-during-supervision', env={'VERIF_PART': '0', 'VERIF_NPART': '2'})]
     ),
 )
 
@@ -559,6 +568,10 @@ SPECS['C08'] = dict(
                    'before the call unchanged, queues closed, second terminate() and the finalizer are no-ops', timeout=(400, 1800)), 8)
         + parts(twin('terminate', 'harness.c07', 'h_terminate_twin', 'a run terminating busy workers exists'), 8)
         + parts(ch('terminate-job', 'harness.c01', 'h_term', 'terminate_job on a busy worker: Terminated for exactly its job', timeout=(300, 1500)), 6)
+        + [ch('terminate-during-supervision', 'harness.c07', 'h_midtick', 'terminate() issued from on_process_up (while replacements are being started): no further '
+              'worker is started, every worker is gone afterwards', timeout=(300, 1500), env={'VERIF_PART': '1', 'VERIF_NPART': '2'}),
+           ch('terminate-during-supervision/twin', 'harness.c07', 'h_midtick_twin', 'the callback fires in some run', timeout=(120, 600), expect='refuted',
+              twin_of='terminate-during-supervision', env={'VERIF_PART': '1', 'VERIF_NPART': '2'})]
     ),
 )
 
